@@ -295,7 +295,7 @@ func oracleServe(c Case, obs serveObs, ctx *hx.Ctx) (problems []string) {
 	}
 	// a name that does not exist is not found
 	// (checked by the walk for existing names; here: every regular file read returns the bytes of the tar)
-	for _, o := range obs.outs {
+	for _, o := range append(append([]readOut{}, obs.outs...), obs.par...) {
 		if !o.isRead {
 			continue
 		}
